@@ -26,6 +26,9 @@ CHECKS = {
  "C05": dict(text="Proof (Coq, partial): a target failed in this run is answered with status 32 without touching anything; without --keep-going run_loop starts nothing after a failure; a non-zero job marks its row failed in this run; a failed row is dirty in every later check. " + SERIAL + PARTIAL + " The -j>1 clause rests on the scheduler model of C09.",
     note=TB + " Serial (-j1) semantics; job status vs command status as in DESIGN.md C04/C05.",
     technique="Coq proof of failure-handling rules + model/implementation differential check over failing histories", ref="5/C05"),
+ "C08": dict(text="Proof (Coq): for every event sequence of any number of redo processes (start, nested begin, token read, cheat, reap with/without cheat byte, release, self-test, exit) the quantity Q = T - C + sum(my - cheats) + J - L is conserved; all books and pipes stay non-negative; working jobs <= n + outstanding cheats; the top-level self-test cannot fail; the tokenless exit of finding F7 is exactly the event the model refuses. Tie: trace validation -- every token-book event reported by the hooked implementation in real parallel builds (-j1..8, log capture on/off, failing builds, inherited jobserver) is replayed through the extracted model, which must accept it and reproduce the reported book and pipe writes. Oracles: self-test message, inherited pipe content, measured work overlap.",
+    note=TB + " A-PIPE; the hook verif_token_event is trusted to report the book after each mutation; abort paths (abandoned jobs) are outside the model.",
+    technique="Coq invariant proof over a transition system + trace validation of the implementation's own token events", ref="5/C08"),
  "C11": dict(text="Proof (Coq): a job for an existing file that is not redo's own (never generated, overridden, or stamp no longer the recorded one) returns 0 and leaves every file as it was (C11_user_file_untouched); dirtiness checks and query commands touch no file; finishing a job touches only its own target and $3. " + SERIAL + PARTIAL,
     note=TB + " A-STAMP: a user replacement with identical mtime and size is indistinguishable by design.",
     technique="Coq proof of the guard conditions on start_self + model/implementation differential check + user-file preservation oracle", ref="5/C11"),
